@@ -51,6 +51,13 @@ def run(tier, seed):
             cases.append((cid, "cpu=%s pc=512 regs=%s show=pc;sp;a rep=1" % (cpu["name"], PRESETS[1][1]), "512:%04x%s" % (p, "ff" * 6)))
     obs = C.conform_parallel(vdir, "sim", cases, chk.rundir, "c15", 5, nproc=C.NCPU)
     byid = {o["case"]: o for o in obs}
+    # a timeout is reported only if it repeats when the case runs alone with a longer limit (a loaded machine
+    # can make a sanitizer-built step miss a 5 s limit)
+    slow = [c for c in cases if byid.get(c[0], {}).get("timeout")]
+    if slow:
+        again = C.conform_parallel(vdir, "sim", slow, chk.rundir, "c15again", 30, nproc=1)
+        for o in again:
+            byid[o["case"]] = o
     events = []
     per = {}
     for c in cases:
